@@ -2,6 +2,7 @@ package main
 
 import (
 	"fmt"
+	"go/constant"
 	"go/token"
 	"go/types"
 	"sort"
@@ -49,6 +50,29 @@ func (vc *FuncVC) call(b *ssa.BasicBlock, idx int, ins ssa.Instruction, c *ssa.C
 	}
 	key, con := vc.calleeContract(c)
 	sig := sigOf(c)
+	// regular expressions: the pattern is read from the SSA constant on every run and translated mechanically
+	if key == "regexp.MustCompile" && resV != nil {
+		if pat, ok := constString(c.Args[0]); ok {
+			if _, err := regexToSMT(pat); err != nil {
+				vc.safetyOb("regexp", "regexp.MustCompile pattern is valid and within the translated RE2 subset: "+err.Error(), pos, reach, False)
+			}
+			r := vc.allocObject(st, "re_"+resV.Name(), reach)
+			vc.vals[resV] = r
+			vc.assumed["regexp.MustCompile / (*Regexp).MatchString: RE2 semantics of the translated subset (T7)"] = true
+			return
+		}
+	}
+	if key == "regexp.(*Regexp).MatchString" && resV != nil {
+		if pat, ok := vc.regexOfValue(c.Args[0], 0); ok {
+			re, err := regexToSMT(pat)
+			if err == nil {
+				vc.vals[resV] = vc.define(resV.Name(), App(SBool, "str.in_re", vc.val(c.Args[1]), Term{re, "RegLan"}))
+				vc.assumed["regexp.MustCompile / (*Regexp).MatchString: RE2 semantics of the translated subset (T7)"] = true
+				return
+			}
+			vc.note("regex not translated: " + err.Error())
+		}
+	}
 	// actual arguments: receiver first
 	var args []Term
 	var argTypes []types.Type
@@ -233,7 +257,7 @@ func (vc *FuncVC) call(b *ssa.BasicBlock, idx int, ins ssa.Instruction, c *ssa.C
 		}
 	}
 	postEnv := &Env{vc: vc, st: st, old: pre, vars: postVars, ctx: con.Ctx}
-	for _, en := range con.Ensures {
+	for _, en := range append(append([]*Clause{}, con.Ensures...), con.GhostEnsures...) {
 		postEnv.ctx = en.Ctx
 		t, err := postEnv.Bool(en.Expr)
 		if err != nil {
@@ -241,6 +265,9 @@ func (vc *FuncVC) call(b *ssa.BasicBlock, idx int, ins ssa.Instruction, c *ssa.C
 			continue
 		}
 		vc.assume(reach, t)
+		if en.Kind == "ensures-ghost" {
+			vc.assumed["ghost provenance tag of "+key+" (history predicate, introduced only here): "+en.Raw] = true
+		}
 	}
 }
 
@@ -491,4 +518,61 @@ func (vc *FuncVC) builtin(b *ssa.BasicBlock, ins ssa.Instruction, bi *ssa.Builti
 		}
 	}
 	_ = token.NoPos
+}
+
+func constString(v ssa.Value) (string, bool) {
+	c, ok := v.(*ssa.Const)
+	if !ok || c.Value == nil || c.Value.Kind() != constant.String {
+		return "", false
+	}
+	return constant.StringVal(c.Value), true
+}
+
+// regexOfValue traces a *regexp.Regexp value to the constant pattern it was compiled from:
+// a MustCompile call in the same function, or a package-level variable initialised by one in init.
+func (vc *FuncVC) regexOfValue(v ssa.Value, depth int) (string, bool) {
+	if depth > 4 {
+		return "", false
+	}
+	switch x := v.(type) {
+	case *ssa.Call:
+		if sc := x.Call.StaticCallee(); sc != nil && calleeKey(sc) == "regexp.MustCompile" {
+			return constString(x.Call.Args[0])
+		}
+	case *ssa.UnOp:
+		if g, ok := x.X.(*ssa.Global); ok && x.Op == token.MUL {
+			initFn := g.Pkg.Func("init")
+			if initFn == nil {
+				return "", false
+			}
+			var found string
+			n := 0
+			for _, b := range initFn.Blocks {
+				for _, ins := range b.Instrs {
+					if st, ok := ins.(*ssa.Store); ok && st.Addr == g {
+						if p, ok := vc.regexOfValue(st.Val, depth+1); ok {
+							found = p
+						}
+						n++
+					}
+				}
+			}
+			// the variable must not be assigned anywhere else in its package
+			for _, m := range g.Pkg.Members {
+				if f, ok := m.(*ssa.Function); ok && f != initFn {
+					for _, b := range f.Blocks {
+						for _, ins := range b.Instrs {
+							if st, ok := ins.(*ssa.Store); ok && st.Addr == g {
+								n++
+							}
+						}
+					}
+				}
+			}
+			if n == 1 && found != "" {
+				return found, true
+			}
+		}
+	}
+	return "", false
 }
